@@ -166,12 +166,10 @@ def run(chk):
         e1 = [n for n in walk(f["body"]) if child_eval_index(n) == 1]
         ok = len(e0) == 1 and len(e1) == 1
         if ok:
-            # e1 must sit in the rhs of a C++ `op` whose lhs contains e0
-            ok = False
-            for b in walk(f["body"]):
-                if b.get("k") == "binop" and b.get("op") == op:
-                    if any(x is e0[0] for x in walk(b["lhs"])) and any(x is e1[0] for x in walk(b["rhs"])):
-                        ok = True
+            # children[1] is reached only with the truth value of children[0] established that does not decide the result:
+            # right operand of the C++ operator, or after `if (!lhs) return false` / `if (lhs) return true`, ...
+            from ..flow import atomic_facts
+            ok = any(any(x is e0[0] for x in walk(a)) and bool(t) == (op == "&&") for a, t in atomic_facts(flow, e1[0]))
         r2.ob("%s: children[1] is evaluated only as the right operand of %s after children[0]" % (cls, op), ok, f.where, f["q"],
               "right operand evaluated unconditionally or under the wrong operator (evaluations: %d, %d)" % (len(e0), len(e1)))
     f = evs.get("If_AST_Node")
@@ -247,11 +245,23 @@ def run(chk):
     # fall-through: once a label has matched, every later case *and default* body runs until a break
     fl_sw = FnFlow(f)
     body_evals = []
+    from ..paths import ref_inits
+    sw_locs = ref_inits(f)
+
+    def clause_text(e, depth=0):
+        """the evaluated node as text, with local reference aliases (`const auto &clause = *children[i]`) replaced by what they name"""
+        txt = expr_str(prog, f, e)
+        for x in walk(e):
+            if x.get("k") == "ref" and x.get("rk") == "local" and depth < 3:
+                v = sw_locs.get(x.get("vid"))
+                if v is not None and v.get("ref") and v.get("init") is not None:
+                    txt = re.sub(r"\b%s\b" % re.escape(x.get("name") or "?"), "(" + clause_text(v["init"], depth + 1) + ")", txt)
+        return txt
     for n in walk(f["body"]):
-        if n.get("k") == "call" and n.get("name") == "eval" and n.get("obj") is not None and "currentCase" in expr_str(prog, f, n["obj"]) and \
-                "children[]0" not in expr_str(prog, f, n["obj"]).replace(" ", "") and not re.search(r"children \[\] 0", expr_str(prog, f, n["obj"])):
-            par = fl_sw.parent(n)
-            if par is not None and par.get("k") in ("block", "if", "try") or True:
+        if n.get("k") == "call" and n.get("name") == "eval" and n.get("obj") is not None:
+            txt = clause_text(n["obj"])
+            # a clause's body: children[<index variable>] itself, not its label expression children[..]->children[0]
+            if txt.count("children") == 1 and not re.search(r"children\s*\[\]\s*\d", txt):
                 body_evals.append(n)
     # the matched-flag: a bool local set to true right after a body evaluation
     flags = {}
@@ -533,6 +543,26 @@ def run(chk):
                "also changes a" % label)
     r11.require(3, "containers of values")
 
+    # ------------------------------------------------------------------ R3.12 = C02 R2.8 / R2.9: operands survive the optimizer
+    if not getattr(chk, "nested", False):
+        from .. import core
+        r12 = chk.rule("R3.12", "no optimizer pass removes the evaluation of an operand that the evaluator would have evaluated: a node becomes a constant, or is replaced by one of its "
+                                "children, only when every other evaluated child is a constant (C02 R2.8 and R2.9 re-decided)",
+                       "short-circuit && and ||: the left operand is always evaluated, the right one exactly when the left does not decide - also in optimized programs (`f() && false` still calls f)")
+        sub = core.Check("C02", tier=chk.tier)
+        sub.prog = prog
+        sub.nested = True
+        c02.run(sub)
+        for rid in ("R2.8", "R2.9"):
+            sr = [r for r in sub.rules if r.rid == rid]
+            r12.anchor(bool(sr), "C02 " + rid)
+            bad = [v for v in sub.violations if v["rule"] == rid]
+            for v in bad:
+                r12.ob("%s: %s" % (rid, v["instance"]), False, v["where"], v["function"], v["detail"])
+            r12.ob("C02 %s decided (%d obligations)" % (rid, sr[0].obligations), True, "", "", "")
+        chk.fn_touched |= sub.fn_touched
+        r12.require(2, "rules")
+
     # ------------------------------------------------------------------ R3.4
     r4 = chk.rule("R3.4", "block-structured constructs evaluate their children inside a scope of their own",
                   "block-scoped variables with shadowing; nothing declared inside a block, loop, case or try is visible after it")
@@ -546,11 +576,9 @@ def run(chk):
         ok = bool(info["guards"]) and (not outside or (allowed_outside is not None and outside <= allowed_outside))
         r4.ob("%s evaluates its children under its own scope guard%s" % (cls, "" if not allowed_outside else " (the range expression excepted)"), ok, info["fn"].where, info["fn"]["q"],
               "children evaluated outside the node's Scope_Push_Pop: %s" % sorted(outside, key=str))
-    ef = [g for g in prog.fns if g["name"] == "eval_function" and g["q"].startswith("chaiscript::eval::detail::") and g["tk"] == "inst"]
-    r4.anchor(ef, "eval::detail::eval_function")
-    g = ef[0]
-    spp = [v for n in walk(g["body"]) if n.get("k") == "decl" for v in n["vars"] if strip_targs(prog.T(g, v["t"])).endswith("::Stack_Push_Pop")]
-    r4.ob("eval_function runs the body in a new call frame (Stack_Push_Pop)", bool(spp), g.where, g["q"], "no Stack_Push_Pop local")
+    okf, g, whyf = function_frame(prog)
+    r4.anchor(g is not None, "eval::detail::eval_function")
+    r4.ob("eval_function runs the body in a new call frame (Stack_Push_Pop)", okf, g.where, g["q"], whyf)
     # per-iteration scope in ranged for; per-clause scope in try is C10 R10.4
     r4.require(9, "constructs")
 
@@ -949,3 +977,25 @@ def typename_match_table(prog, fns):
         "first argument decides (not matching)": (run(many[0], dict(no_arguments=False, first=False)), False),
     }
     return sc
+
+
+def function_frame(prog):
+    """eval_function binds `this`, captures and parameters and evaluates the body inside a frame of its own: an automatic Stack_Push_Pop declared, unconditionally,
+    before the first binding and before the body is evaluated -> (ok, function, why)"""
+    ef = [g for g in prog.fns if g["name"] == "eval_function" and g["q"].startswith("chaiscript::eval::detail::") and g["tk"] == "inst"]
+    if not ef:
+        return False, None, "eval_function not found"
+    g = ef[0]
+    flow = FnFlow(g)
+    decls = [(n, v) for n in walk(g["body"]) if n.get("k") == "decl" for v in n["vars"] if strip_targs(prog.T(g, v["t"])).endswith("::Stack_Push_Pop")]
+    if not decls:
+        return False, g, "no automatic Stack_Push_Pop local: the body runs on the caller's stack, where the caller's locals are visible to it"
+    dn, dv = decls[0]
+    top = g["body"].get("s", [])
+    if not any(x is dn for x in top) or dv.get("static") or dv.get("ref"):
+        return False, g, "the Stack_Push_Pop is declared conditionally / not as a plain automatic object"
+    uses = [n for n in walk(g["body"]) if n.get("k") == "call" and (n.get("name") in ("add_object", "add_get_object") or (n.get("name") == "eval" and n.get("obj") is not None))]
+    early = [n for n in uses if n["l"] < dn["l"]]
+    if early:
+        return False, g, "a binding or the body's evaluation (line %d) precedes the frame" % early[0]["l"]
+    return True, g, ""
